@@ -230,7 +230,17 @@ func recallCase(rec *mon.Recorder, c int) {
 	rec.Max("min_recall_x1000_negated", -int64(recall*1000))
 	rec.Seen("recall", fmt.Sprintf("%s recall@10=%.3f", desc, recall))
 	if recall < 0.8 {
-		rec.Violation("recall:below-0.8", fmt.Sprintf("%s mean recall@10 = %.3f", desc, recall),
+		// the signature names the configuration class and a coarse band, so that a
+		// recorded shortfall of one class does not hide another class or a collapse
+		dist := "uniform"
+		if normal {
+			dist = "normal"
+		}
+		band := "0.65-0.8"
+		if recall < 0.65 {
+			band = "below-0.65"
+		}
+		rec.Violation(fmt.Sprintf("recall:below-0.8:dim%d:%s:metric%d:band-%s", dim, dist, metric, band), fmt.Sprintf("%s mean recall@10 = %.3f", desc, recall),
 			map[string]interface{}{"collection": c, "seed": rec.Seed(), "desc": desc, "recall": recall})
 	}
 	rec.Case(mon.Digest("recall", desc, c), true)
